@@ -506,6 +506,48 @@ func c12Pool(extended bool) []c12Val {
 	return p
 }
 
+// c12WidePool is the second operand pool: rationals whose numerator or
+// denominator lies between 2^53 and 2^63 (fits a machine word but is not a
+// double, so converting the two parts separately rounds twice), with a few
+// floats to meet them in + - * /.
+func c12WidePool() []c12Val {
+	var p []c12Val
+	for _, f := range []float64{0, 1, 0.5, -1, 1e300, math.Copysign(0, -1)} {
+		p = append(p, c12MkFloat(strconv.FormatFloat(f, 'g', -1, 64)+"f", f))
+	}
+	p53, p62, p63 := c12Pow(2, 53), c12Pow(2, 62), c12Pow(2, 63)
+	type nb struct {
+		name string
+		v    *big.Int
+	}
+	wide := []nb{
+		{"2^53+1", c12Plus(p53, 1)}, {"2^53+3", c12Plus(p53, 3)}, {"2^53+5", c12Plus(p53, 5)}, {"2^53+7", c12Plus(p53, 7)},
+		{"-(2^53+9)", new(big.Int).Neg(c12Plus(p53, 9))}, {"2^62+1", c12Plus(p62, 1)}, {"2^63-1", c12Plus(p63, -1)},
+	}
+	dens := []nb{{"3", big.NewInt(3)}, {"7", big.NewInt(7)}, {"10", big.NewInt(10)}, {"2^53+1", c12Plus(p53, 1)}, {"2^62+3", c12Plus(p62, 3)}}
+	seen := map[string]bool{}
+	add := func(name string, n, d *big.Int) {
+		r := new(big.Rat).SetFrac(n, d)
+		if r.IsInt() || seen[r.String()] {
+			return
+		}
+		seen[r.String()] = true
+		p = append(p, c12MkExact(name, r))
+	}
+	for _, n := range wide {
+		for _, d := range dens {
+			add("("+n.name+")/"+"("+d.name+")", n.v, d.v)
+		}
+	}
+	// the wide part in the denominator
+	for _, n := range []int64{1, 7, -3, 10} {
+		for _, d := range wide {
+			add(fmt.Sprintf("%d/(%s)", n, d.name), big.NewInt(n), d.v)
+		}
+	}
+	return p
+}
+
 func c12Show(v any) string {
 	switch v := v.(type) {
 	case nil:
@@ -957,6 +999,7 @@ func TestVerifC12(t *testing.T) {
 		}
 		c.Rule(fmt.Sprintf("every argument list of 0..3 operands over the %d-value pool (base pool of %d floats and %d exact numbers: %v; further values: %v) for each of + - * / (lists without a float are out of scope and skipped; / without arguments is cd), "+
 			"thorough also every list of 4 operands over the %d-value base pool; every list of 1..2 operands with every choice of passing operands as documented number strings; "+
+			"every list of 1..3 operands over a second pool of 6 floats (0.0 1.0 0.5 -1.0 1e300 -0.0) and the reduced non-integer rationals n/d, n in {2^53+1,+3,+5,+7,-(2^53+9),2^62+1,2^63-1}, d in {3,7,10,2^53+1,2^62+3}, and {1,7,-3,10}/n (parts between 2^53 and 2^63); "+
 			"each pool value through inexact-num exact-num math:floor ceil round round-to-even trunc abs (typed and as string); "+
 			"class = (command, kind of each operand: z exact 0/i int/b bigint/r rational/o float zero/f finite float/I infinity/n NaN, s = passed as string, documented rule that decides, class of the expected result)",
 			len(ext), nf, ne, baseNames, extNames, len(base)))
@@ -968,7 +1011,7 @@ func TestVerifC12(t *testing.T) {
 		k := &c12Runner{c: c}
 
 		// self-check of the bit-level oracle on all pairs of pool floats
-		for _, a := range ext {
+		for _, a := range append(append([]c12Val{}, ext...), c12WidePool()...) {
 			for _, b := range ext {
 				c12AddC(a.conv, b.conv)
 				c12SubC(a.conv, b.conv)
@@ -1033,7 +1076,22 @@ func TestVerifC12(t *testing.T) {
 			enum(base, 4, 4)
 		}
 
-		// 3. string forms, 1..2 operands
+		// 2b. the wide-rational pool: every value through the unary commands, every list of <=3 with the floats
+		wide := c12WidePool()
+		for i := range wide {
+			e := c12GetEnv()
+			l := vk.NewLocal()
+			for _, op := range c12Unary {
+				k.one(l, e, op, []*c12Val{&wide[i]}, 0)
+				k.one(l, e, op, []*c12Val{&wide[i]}, 1)
+			}
+			c.Merge(l)
+			c12PutEnv(e)
+		}
+		enum(wide, 1, 2)
+		enum(wide, 3, 3)
+		c.Set("wide_rational_pool", len(wide))
+
 		pool := ext
 		n := len(pool)
 		c.Parallel(n+n*n, func(l *vk.Local, i int) {
